@@ -62,6 +62,73 @@ theorem rds_no_dot (p : Str) (h : 46 ∉ 47 :: p) :
     Rfc.removeDotSegments (47 :: p) = 47 :: p := by
   rw [← C15_rfc, C15_dot_guard_sound _ h]
 
+/-! ### paths without any '.' : the RFC loop only ever applies rule E (for ARBITRARY paths,
+    rooted or not) -/
+
+theorem firstSegment_append (inp : Str) :
+    (Rfc.firstSegment inp).1 ++ (Rfc.firstSegment inp).2 = inp := by
+  unfold Rfc.firstSegment
+  split <;> simp [List.takeWhile_append_dropWhile]
+
+theorem firstSegment_length (x : Nat) (xs : Str) :
+    (Rfc.firstSegment (x :: xs)).2.length ≤ xs.length := by
+  unfold Rfc.firstSegment
+  split
+  · rename_i rest h
+    obtain ⟨_, rfl⟩ := List.cons.inj h
+    exact (List.dropWhile_sublist _).length_le
+  · by_cases hx : x = 47
+    · subst hx
+      rename_i h
+      exact absurd rfl (h xs)
+    · simp only [List.dropWhile_cons, ne_eq, hx, not_false_eq_true, decide_true, ↓reduceIte]
+      exact (List.dropWhile_sublist _).length_le
+
+/-- rule E fires on an input without '.' -/
+theorem rdsLoop_E_nodot (fuel x : Nat) (xs out : Str) (hx : x ≠ 46) (hxs : 46 ∉ xs) :
+    Rfc.rdsLoop (fuel + 1) (x :: xs) out
+      = Rfc.rdsLoop fuel (Rfc.firstSegment (x :: xs)).2 (out ++ (Rfc.firstSegment (x :: xs)).1) := by
+  rw [Rfc.rdsLoop]
+  · simp
+  · intro r h; exact hx (List.cons.inj h).1
+  · intro r h; exact hx (List.cons.inj h).1
+  · intro r h; exact hxs (by rw [(List.cons.inj h).2]; simp)
+  · intro h; exact hxs (by rw [(List.cons.inj h).2]; simp)
+  · intro r h; exact hxs (by rw [(List.cons.inj h).2]; simp)
+  · intro h; exact hxs (by rw [(List.cons.inj h).2]; simp)
+  · intro h; exact hx (List.cons.inj h).1
+  · intro h; exact hx (List.cons.inj h).1
+
+theorem rdsLoop_nodot (fuel : Nat) : ∀ (inp out : Str), 46 ∉ inp → inp.length < fuel →
+    Rfc.rdsLoop fuel inp out = out ++ inp := by
+  induction fuel with
+  | zero => intro inp out _ h; omega
+  | succ fuel ih =>
+    intro inp out hd hl
+    cases inp with
+    | nil => simp [Rfc.rdsLoop]
+    | cons x xs =>
+      have hx : x ≠ 46 := fun h => hd (h ▸ List.mem_cons_self)
+      have hxs : 46 ∉ xs := fun h => hd (List.mem_cons_of_mem _ h)
+      rw [rdsLoop_E_nodot fuel x xs out hx hxs]
+      have happ := firstSegment_append (x :: xs)
+      have hlen := firstSegment_length x xs
+      rw [ih _ _ _ (by simp only [List.length_cons] at hl; omega), List.append_assoc, happ]
+      intro hm
+      exact hd (by rw [← happ]; exact List.mem_append_right _ hm)
+
+/-- RFC 3986 §5.2.4 leaves ANY path without a '.' (rooted or rootless) unchanged -/
+theorem rds_no_dot_any (p : Str) (h : 46 ∉ p) : Rfc.removeDotSegments p = p := by
+  unfold Rfc.removeDotSegments
+  rw [rdsLoop_nodot _ p [] h (by omega)]
+  rfl
+
+/-- the code's guard on a path without '.' -/
+theorem guard_nodot (p : Str) (h : 46 ∉ p) :
+    (if mem 46 p then normalizePath p else p) = Rfc.removeDotSegments p := by
+  rw [rds_no_dot_any p h, if_neg]
+  simpa [mem] using h
+
 /-- the guarded normalisation of the code is RFC dot-segment removal on rooted paths -/
 theorem guard_rds (p : Str) :
     (if mem 46 (47 :: p) then normalizePath (47 :: p) else 47 :: p) = Rfc.removeDotSegments (47 :: p) := by
